@@ -382,6 +382,15 @@ class ModuleRef:
         self.name = name
 
 
+class RepoModule:
+    """a module of the analysed package as a value (`from . import helpers`): its attributes are its globals"""
+    def __init__(self, mod):
+        self.mod = mod
+
+    def __repr__(self):
+        return f"<module {self.mod.rel}>"
+
+
 class Interp:
     def __init__(self, repo: Repo, max_depth=6):
         self.repo = repo
@@ -392,6 +401,7 @@ class Interp:
         self.trace = []
         self.steps = 0
         self.globals = {}
+        self._cb_busy = set()
 
     # ---- entry points -----------------------------------------------------
     def call(self, fi, self_obj, args=(), kwargs=None):
@@ -798,8 +808,13 @@ class Interp:
             return self.globals[e.id]
         mod = env.get("__mod__")
         cb = env.get("__classbody__")
-        if cb is not None and e.id in cb.consts:
-            return self.eval(cb.consts[e.id], env)  # a class-level expression naming a sibling class constant
+        if cb is not None and e.id in cb.consts and (id(cb), e.id) not in self._cb_busy:
+            # a class-level expression naming a sibling class constant; `X = X` in a class body reads the global X
+            self._cb_busy.add((id(cb), e.id))
+            try:
+                return self.eval(cb.consts[e.id], env)
+            finally:
+                self._cb_busy.discard((id(cb), e.id))
         if cb is not None and e.id in cb.methods:
             bm = BoundMethod(None, cb.methods[e.id])  # a class-level table naming a function of the class body: the plain function
             bm.unbound = not cb.methods[e.id].is_static
@@ -821,6 +836,8 @@ class Interp:
             tgt = self.repo._import_target(mod, e.id)
             if tgt is not None:
                 m2, nm = tgt
+                if nm is None:
+                    return RepoModule(m2)   # `from . import helpers`: a module of the package
                 if nm in m2.consts:
                     return self._module_value(m2, nm)
                 if nm in m2.classes:
@@ -929,6 +946,11 @@ class Interp:
                 if attr in getattr(k, "inner", {}):
                     return ClassRef(k.inner[attr])
             raise Undecided(f"{base.cls.name}.{attr}")
+        if isinstance(base, RepoModule):
+            try:
+                return self.eval(ast.Name(id=attr, ctx=ast.Load()), {"__mod__": base.mod, "__class__": None})
+            except Undecided:
+                raise PyRaise(f"AttributeError: module '{base.mod.rel}' has no attribute '{attr}'", node)
         if isinstance(base, ModuleRef):
             if base.name == "re" and attr in ("DOTALL", "IGNORECASE", "MULTILINE", "VERBOSE", "ASCII", "S", "I", "M", "X", "A"):
                 import re as _re
